@@ -77,8 +77,22 @@ def make_files(rng, ctx):
     n = ctx.pick(1, 6)
     for i in range(n):
         evs = gen.gen_scenario_events(rng, n_scenarios=rng.choice((4, 6)))
-        recs = gen.events_to_records(evs)[:ctx.pick(28, 56)]
-        entries = gen.threadmap_for(evs)
+        # records whose *following* record changes what an already reported line would show: an exec / new-thread pair
+        # naming the emitting thread's own pid, a terminate-pid record, then ordinary calls of that thread
+        from vlib import histories as H
+        tail = []
+        for k, tid in enumerate((11, 12)):
+            tail += H.on_thread(tid, H.syscall('BSC_getpid', (0, 0, 0, 0), (0, 100 * (k + 1), 0, 0))
+                                + H.exec_pair(100 * (k + 1), b'renamed%d' % k, rng.choice((H.NONE, H.ALL)))
+                                + H.syscall('BSC_getppid', (0, 0, 0, 0), (0, 1, 0, 0))
+                                + H.newthread_pair(5000 + k, 100 * (k + 1), b'again%d' % k)
+                                + H.syscall('BSC_getuid', (0, 0, 0, 0), (0, 501, 0, 0)))
+        cut = ctx.pick(16, 40)
+        evs = evs[:cut] + H.materialize(tail, t0=evs[min(cut, len(evs)) - 1].timestamp + 7)
+        recs = gen.events_to_records(evs)[:ctx.pick(40, 64)]
+        # the map declares the pid the threads' own exec / new-thread records name, so that a name string renames the
+        # process of the thread that emitted it (the process column of already reported lines must not change)
+        entries = [(tid, 100 * (k + 1), b'proc%d' % k, b'') for k, tid in enumerate((11, 12, 13))]
         pad = rng.choice((0, 8, 64, 100))
         files.append({'kind': 'v2', 'entries': entries, 'pad': pad, 'records': recs,
                       'data': wire.v2_file(entries, pad, recs), 'label': f'v2 scenario content pad={pad}'})
